@@ -1,9 +1,720 @@
-// C08: not built yet (stub so that main.rs is already wired; replace the body, keep the two signatures).
-use crate::util::Sink;
+// C08: channel identity -- bank-name parsers, run-number dependent wire / pad maps, wire <-> pad column
+// geometry.  Case generation and implementation observations (public API of alpha_g_detector only).
+//
+// case lines (first token unique to this module):
+//   nm <hex>                      every parser on one name
+//   nmblk <prefixhex> <c1,c2,..>  every parser on prefix+c for each completion c (hex); compact observation
+//   radix <r> <hex>               u8::from_str_radix(name, r), the std function the parsers use
+//   run <n>                       complete wire table and pad table of run n (count of Ok entries / hash / bijective)
+//   wpos <run> <boardhex> <ch>    TpcWirePosition::try_new
+//   ppos <run> <boardhex> <after> <ch>   TpcPadPosition::try_new
+//   wcol <w>                      geometry: phi index of wire w and the pad column whose phi interval contains it
+//   colw <c>                      geometry: the wires whose phi lies in pad column c
+use crate::util::*;
+use alpha_g_detector::alpha16::aw_map::{TpcWirePosition, ANODE_WIRE_PITCH_PHI, TPC_ANODE_WIRES};
+use alpha_g_detector::alpha16::{self, Adc16ChannelId, Adc32ChannelId, ChannelId};
+use alpha_g_detector::midas::*;
+use alpha_g_detector::padwing::map::{TpcPadColumn, TpcPadPosition, PAD_PITCH_PHI, TPC_PADS, TPC_PAD_COLUMNS, TPC_PAD_ROWS};
+use alpha_g_detector::padwing::{self, AfterId, PadChannelId};
 
-pub fn run(_tier: &str, _seed: u64, _s: &mut Sink) {}
+// ------------------------------------------------------------------------------------------------
+// names
+// ------------------------------------------------------------------------------------------------
+fn ch16(c: Adc16ChannelId) -> u8 {
+    (0..=255u8).find(|&n| Adc16ChannelId::try_from(n).map(|x| x == c).unwrap_or(false)).unwrap()
+}
+fn ch32(c: Adc32ChannelId) -> u8 {
+    (0..=255u8).find(|&n| Adc32ChannelId::try_from(n).map(|x| x == c).unwrap_or(false)).unwrap()
+}
+fn a16_board(b: alpha16::BoardId) -> String {
+    format!("{}:{}", hex(b.name().as_bytes()), hex(&b.mac_address()))
+}
+fn pwb_board(b: padwing::BoardId) -> String {
+    format!("{}:{}", hex(b.name().as_bytes()), hex(&b.mac_address()))
+}
+fn a16_name_obs(n: Alpha16BankName) -> String {
+    match n.channel_id() {
+        ChannelId::A16(c) => format!("ok:1:{}:{}", a16_board(n.board_id()), ch16(c)),
+        ChannelId::A32(c) => format!("ok:2:{}:{}", a16_board(n.board_id()), ch32(c)),
+    }
+}
 
-/// implementation observation for a case line of this module (None: not one of mine)
-pub fn observe_line(_line: &str) -> Option<String> {
-    None
+fn outcome<T, E>(r: Option<Result<T, E>>, f: impl Fn(T) -> String) -> String {
+    match r {
+        None => "panic".to_string(),
+        Some(Err(_)) => "err".to_string(),
+        Some(Ok(v)) => f(v),
+    }
+}
+
+const PARSERS: [&str; 10] = ["main", "a16", "adc16", "adc32", "pwb", "trg", "trb3", "mcvx", "cb", "seq2"];
+
+fn parser_obs(p: usize, name: &str) -> String {
+    let s = name.to_string();
+    match p {
+        0 => outcome(catch(move || MainEventBankName::try_from(&s[..])), |k| match k {
+            MainEventBankName::Alpha16(n) => a16_name_obs(n),
+            MainEventBankName::Padwing(n) => format!("ok:3:{}:0", pwb_board(n.board_id())),
+            MainEventBankName::Trg(_) => "ok:4:-:-:0".to_string(),
+            MainEventBankName::Trb3(_) => "ok:5:-:-:0".to_string(),
+            MainEventBankName::McVertex(_) => "ok:6:-:-:0".to_string(),
+        }),
+        1 => outcome(catch(move || Alpha16BankName::try_from(&s[..])), a16_name_obs),
+        2 => outcome(catch(move || Adc16BankName::try_from(&s[..])), |n| {
+            format!("ok:{}:{}", a16_board(n.board_id()), ch16(n.channel_id()))
+        }),
+        3 => outcome(catch(move || Adc32BankName::try_from(&s[..])), |n| {
+            format!("ok:{}:{}", a16_board(n.board_id()), ch32(n.channel_id()))
+        }),
+        4 => outcome(catch(move || PadwingBankName::try_from(&s[..])), |n| format!("ok:{}", pwb_board(n.board_id()))),
+        5 => outcome(catch(move || TriggerBankName::try_from(&s[..])), |_| "ok".to_string()),
+        6 => outcome(catch(move || Trb3BankName::try_from(&s[..])), |_| "ok".to_string()),
+        7 => outcome(catch(move || McVertexBankName::try_from(&s[..])), |_| "ok".to_string()),
+        8 => outcome(catch(move || ChronoboxBankName::try_from(&s[..])), |n| {
+            format!("ok:{}", hex(n.board_id.name().as_bytes()))
+        }),
+        _ => outcome(catch(move || Seq2BankName::try_from(&s[..])), |_| "ok".to_string()),
+    }
+}
+
+/// the parsers whose outcome on `name` is not `err`, as `parser=obs,..` (empty when every parser says err)
+fn name_obs(name: &str) -> String {
+    let mut out = Vec::new();
+    for (i, p) in PARSERS.iter().enumerate() {
+        let o = parser_obs(i, name);
+        if o != "err" {
+            out.push(format!("{p}={o}"));
+        }
+    }
+    out.join(",")
+}
+
+fn obs_nm(h: &str) -> String {
+    match String::from_utf8(unhex(h)) {
+        Err(_) => "not-utf8".to_string(), // a &str cannot hold this; never generated
+        Ok(s) => {
+            let o = name_obs(&s);
+            if o.is_empty() {
+                "err".to_string()
+            } else if o.contains("=panic") {
+                format!("panic {o}")
+            } else {
+                format!("ok {o}")
+            }
+        }
+    }
+}
+
+fn obs_nmblk(prefix: &str, comps: &str) -> String {
+    let p = unhex(prefix);
+    let mut n = 0;
+    let mut out = String::new();
+    for c in comps.split(',') {
+        let mut b = p.clone();
+        b.extend(unhex(c));
+        n += 1;
+        match String::from_utf8(b.clone()) {
+            Err(_) => out.push_str(&format!(" {}:not-utf8", hex(&b))),
+            Ok(s) => {
+                let o = name_obs(&s);
+                if !o.is_empty() {
+                    out.push_str(&format!(" {}:{}", hex(&b), o));
+                }
+            }
+        }
+    }
+    let class = if out.is_empty() {
+        "err"
+    } else if out.contains("=panic") {
+        "panic"
+    } else {
+        "ok"
+    };
+    format!("{class} {n}{out}")
+}
+
+fn obs_radix(r: u32, h: &str) -> String {
+    match String::from_utf8(unhex(h)) {
+        Err(_) => "not-utf8".to_string(),
+        Ok(s) => match catch(move || u8::from_str_radix(&s, r)) {
+            None => "panic".to_string(),
+            Some(Err(_)) => "err".to_string(),
+            Some(Ok(v)) => format!("ok {v}"),
+        },
+    }
+}
+
+// ------------------------------------------------------------------------------------------------
+// maps
+// ------------------------------------------------------------------------------------------------
+const HASH_P: u128 = (1u128 << 61) - 1;
+fn hash_step(h: u64, v: u64) -> u64 {
+    ((h as u128 * 1_000_003u128 + v as u128 + 1) % HASH_P) as u64
+}
+
+/// all two-character names over 0-9 A-Z in ascending order
+fn candidate_names() -> Vec<String> {
+    let al: Vec<char> = ('0'..='9').chain('A'..='Z').collect();
+    let mut v = Vec::new();
+    for a in &al {
+        for b in &al {
+            v.push(format!("{a}{b}"));
+        }
+    }
+    v
+}
+
+struct Known {
+    a16: Vec<alpha16::BoardId>,
+    pwb: Vec<padwing::BoardId>,
+}
+fn known() -> &'static Known {
+    static K: std::sync::OnceLock<Known> = std::sync::OnceLock::new();
+    K.get_or_init(|| Known {
+        a16: candidate_names().iter().filter_map(|n| alpha16::BoardId::try_from(&n[..]).ok()).collect(),
+        pwb: candidate_names().iter().filter_map(|n| padwing::BoardId::try_from(&n[..]).ok()).collect(),
+    })
+}
+
+fn after_of(a: u8) -> AfterId {
+    AfterId::try_from(a).unwrap()
+}
+
+fn wire_code(run: u32, b: alpha16::BoardId, ch: u8) -> u64 {
+    let c = Adc32ChannelId::try_from(ch).unwrap();
+    match catch(move || TpcWirePosition::try_new(run, b, c)) {
+        None => TPC_ANODE_WIRES as u64 + 1,
+        Some(Err(_)) => TPC_ANODE_WIRES as u64,
+        Some(Ok(w)) => usize::from(w) as u64,
+    }
+}
+fn pad_code(run: u32, b: padwing::BoardId, a: u8, ch: u16) -> u64 {
+    let (af, pc) = (after_of(a), PadChannelId::try_from(ch).unwrap());
+    match catch(move || TpcPadPosition::try_new(run, b, af, pc)) {
+        None => TPC_PADS as u64 + 1,
+        Some(Err(_)) => TPC_PADS as u64,
+        Some(Ok(p)) => (usize::from(p.column) * TPC_PAD_ROWS + usize::from(p.row)) as u64,
+    }
+}
+
+/// (number of Ok entries, hash, Ok entries are each of 0..n exactly once)
+fn table_obs(n: u64, tbl: &[u64]) -> String {
+    let mut h = 0u64;
+    let mut seen = vec![0u32; n as usize];
+    let mut nok = 0u64;
+    for &v in tbl {
+        h = hash_step(h, v);
+        if v < n {
+            nok += 1;
+            seen[v as usize] += 1;
+        }
+    }
+    let bij = nok == n && seen.iter().all(|&c| c == 1);
+    format!("{nok}/{h}/{}", bij as u8)
+}
+
+fn obs_run(run: u32) -> String {
+    let k = known();
+    let mut wt = Vec::with_capacity(k.a16.len() * 32);
+    for &b in &k.a16 {
+        for ch in 0..32u8 {
+            wt.push(wire_code(run, b, ch));
+        }
+    }
+    let mut pt = Vec::with_capacity(k.pwb.len() * 288);
+    for &b in &k.pwb {
+        for a in 0..4u8 {
+            for ch in 1..=72u16 {
+                pt.push(pad_code(run, b, a, ch));
+            }
+        }
+    }
+    let (w, p) = (table_obs(TPC_ANODE_WIRES as u64, &wt), table_obs(TPC_PADS as u64, &pt));
+    let class = if w.starts_with("0/") && p.starts_with("0/") { "err" } else { "ok" };
+    format!("{class} w={w} p={p}")
+}
+
+fn obs_wpos(run: u32, bh: &str, ch: u8) -> String {
+    let name = String::from_utf8(unhex(bh)).unwrap_or_default();
+    let (Ok(b), Ok(c)) = (alpha16::BoardId::try_from(&name[..]), Adc32ChannelId::try_from(ch)) else {
+        return "noboard".to_string();
+    };
+    match catch(move || TpcWirePosition::try_new(run, b, c)) {
+        None => "panic".to_string(),
+        Some(Err(_)) => "err".to_string(),
+        Some(Ok(w)) => format!("ok {}", usize::from(w)),
+    }
+}
+fn obs_ppos(run: u32, bh: &str, a: u8, ch: u16) -> String {
+    let name = String::from_utf8(unhex(bh)).unwrap_or_default();
+    let (Ok(b), Ok(af), Ok(pc)) = (padwing::BoardId::try_from(&name[..]), AfterId::try_from(a), PadChannelId::try_from(ch))
+    else {
+        return "noboard".to_string();
+    };
+    match catch(move || TpcPadPosition::try_new(run, b, af, pc)) {
+        None => "panic".to_string(),
+        Some(Err(_)) => "err".to_string(),
+        Some(Ok(p)) => format!("ok {} {}", usize::from(p.column), usize::from(p.row)),
+    }
+}
+
+// geometry through the public phi() accessors
+fn wire_phi(w: usize) -> Option<f64> {
+    TpcWirePosition::try_from(w).ok().map(|p| p.phi())
+}
+fn column_of_phi(phi: f64) -> Option<usize> {
+    let mut found = None;
+    for c in 0..TPC_PAD_COLUMNS {
+        let centre = TpcPadColumn::try_from(c).unwrap().phi();
+        if centre - 0.5 * PAD_PITCH_PHI <= phi && phi < centre + 0.5 * PAD_PITCH_PHI {
+            if found.is_some() {
+                return None; // two columns claim it
+            }
+            found = Some(c);
+        }
+    }
+    found
+}
+fn obs_wcol(w: usize) -> String {
+    match wire_phi(w) {
+        None => "nowire".to_string(),
+        Some(phi) => {
+            let s = (phi / ANODE_WIRE_PITCH_PHI - 0.5).round() as i64;
+            match column_of_phi(phi) {
+                Some(c) => format!("ok {s} {c}"),
+                None => format!("ok {s} none"),
+            }
+        }
+    }
+}
+fn obs_colw(c: usize) -> String {
+    let mut v = Vec::new();
+    for w in 0..TPC_ANODE_WIRES {
+        if column_of_phi(wire_phi(w).unwrap()) == Some(c) {
+            v.push(w.to_string());
+        }
+    }
+    v.sort_by_key(|s| s.parse::<usize>().unwrap());
+    if v.is_empty() {
+        "ok -".to_string()
+    } else {
+        format!("ok {}", v.join(" "))
+    }
+}
+
+pub fn observe_line(line: &str) -> Option<String> {
+    let t: Vec<&str> = line.split(' ').collect();
+    let num = |s: &str| s.parse::<u64>().ok();
+    Some(match (t[0], t.len()) {
+        ("nm", 2) => obs_nm(t[1]),
+        ("nmblk", 3) => obs_nmblk(t[1], t[2]),
+        ("radix", 3) => obs_radix(num(t[1])? as u32, t[2]),
+        ("run", 2) => obs_run(num(t[1])? as u32),
+        ("wpos", 4) => obs_wpos(num(t[1])? as u32, t[2], num(t[3])? as u8),
+        ("ppos", 5) => obs_ppos(num(t[1])? as u32, t[2], num(t[3])? as u8, num(t[4])? as u16),
+        ("wcol", 2) => obs_wcol(num(t[1])? as usize),
+        ("colw", 2) => obs_colw(num(t[1])? as usize),
+        _ => return None,
+    })
+}
+
+// ------------------------------------------------------------------------------------------------
+// generators
+// ------------------------------------------------------------------------------------------------
+/// digits, letters incl. F G V W Z and lower case, '+', '-', '_', space, NUL, two multi-byte characters
+fn alphabet() -> Vec<Vec<u8>> {
+    let mut v: Vec<Vec<u8>> = Vec::new();
+    for c in "0123456789ABCDEFGHMPQRSTUVWXYZabcfgpvxz+-_ \0".chars() {
+        v.push(c.to_string().into_bytes());
+    }
+    v.push("é".as_bytes().to_vec()); // 2 bytes
+    v.push("€".as_bytes().to_vec()); // 3 bytes
+    v
+}
+
+fn put(s: &mut Sink, case: String, label: &str, nontrivial: bool) {
+    let o = observe_line(&case).unwrap();
+    s.put(&case, &o, label, nontrivial);
+}
+
+fn put_block(s: &mut Sink, prefix: &[u8], comps: &[Vec<u8>], label: &str) {
+    if comps.is_empty() {
+        return;
+    }
+    let c: Vec<String> = comps.iter().map(|x| hex(x)).collect();
+    let case = format!("nmblk {} {}", hex(prefix), c.join(","));
+    let o = observe_line(&case).unwrap();
+    let nt = !o.starts_with("err");
+    s.put(&case, &o, label, nt);
+}
+
+/// all symbol sequences of total byte length exactly `want`, as (prefix, completions) blocks
+fn blocks(al: &[Vec<u8>], want: usize, prefix: &mut Vec<u8>, f: &mut dyn FnMut(&[u8], &[Vec<u8>])) {
+    let left = want - prefix.len();
+    let comps: Vec<Vec<u8>> = al.iter().filter(|x| x.len() == left).cloned().collect();
+    if !comps.is_empty() {
+        f(prefix, &comps);
+    }
+    for x in al {
+        if x.len() < left {
+            let n = prefix.len();
+            prefix.extend_from_slice(x);
+            blocks(al, want, prefix, f);
+            prefix.truncate(n);
+        }
+    }
+}
+
+fn documented_like(r: &mut Rng) -> Vec<u8> {
+    let k = known();
+    let digits = b"0123456789ABCDEFGHIJKLMNOPQRSTUVWXYZ";
+    match r.below(8) {
+        0 | 1 => {
+            let b = r.pick(&k.a16);
+            let mut v = vec![if r.chance(1, 2) { b'B' } else { b'C' }];
+            v.extend(b.name().as_bytes());
+            v.push(digits[r.below(36) as usize]);
+            v
+        }
+        2 | 3 => {
+            let b = r.pick(&k.pwb);
+            let mut v = b"PC".to_vec();
+            v.extend(b.name().as_bytes());
+            v
+        }
+        4 => {
+            let mut v = b"PC".to_vec();
+            v.push(b'0' + r.below(10) as u8);
+            v.push(b'0' + r.below(10) as u8);
+            v
+        }
+        5 => r.pick(&[&b"ATAT"[..], b"TRBA", b"MCVX", b"SEQ2", b"CBF1", b"CBF2", b"CBF3", b"CBF4", b"CBF0", b"CBF5"]).to_vec(),
+        _ => {
+            let mut v = vec![r.pick(b"BC")];
+            v.push(digits[r.below(36) as usize]);
+            v.push(digits[r.below(36) as usize]);
+            v.push(digits[r.below(36) as usize]);
+            v
+        }
+    }
+}
+
+fn utf8_ok(b: &[u8]) -> bool {
+    std::str::from_utf8(b).is_ok()
+}
+
+/// every documented name, built from the boards the public API accepts
+fn documented() -> Vec<Vec<u8>> {
+    let k = known();
+    let digits = b"0123456789ABCDEFGHIJKLMNOPQRSTUV";
+    let mut v: Vec<Vec<u8>> = Vec::new();
+    for b in &k.a16 {
+        for (letter, n) in [(b'B', 16usize), (b'C', 32)] {
+            for d in &digits[..n] {
+                let mut x = vec![letter];
+                x.extend(b.name().as_bytes());
+                x.push(*d);
+                v.push(x);
+            }
+        }
+    }
+    for b in &k.pwb {
+        let mut x = b"PC".to_vec();
+        x.extend(b.name().as_bytes());
+        v.push(x);
+    }
+    for n in ["ATAT", "TRBA", "MCVX", "SEQ2", "CBF1", "CBF2", "CBF3", "CBF4"] {
+        v.push(n.as_bytes().to_vec());
+    }
+    v
+}
+
+/// integer literals of the map sources (comments included -- over-approximation is harmless): candidates for arm boundaries
+fn mined_literals() -> Vec<u64> {
+    let repo = std::env::var("VERIF_REPO").unwrap_or_else(|_| "/repo".to_string());
+    let mut out = Vec::new();
+    for f in ["detector/src/alpha16/aw_map.rs", "detector/src/padwing/map.rs"] {
+        let Ok(src) = std::fs::read_to_string(format!("{repo}/{f}")) else { continue };
+        let b = src.as_bytes();
+        let mut i = 0;
+        while i < b.len() {
+            let prev_ident = i > 0 && (b[i - 1].is_ascii_alphanumeric() || b[i - 1] == b'_');
+            if b[i].is_ascii_digit() && !prev_ident {
+                let mut v: u64 = 0;
+                let mut ok = true;
+                while i < b.len() && (b[i].is_ascii_digit() || b[i] == b'_') {
+                    if b[i] != b'_' {
+                        v = v.saturating_mul(10).saturating_add((b[i] - b'0') as u64);
+                        if v > u32::MAX as u64 {
+                            ok = false;
+                        }
+                    }
+                    i += 1;
+                }
+                while i < b.len() && (b[i].is_ascii_alphanumeric() || b[i] == b'_') {
+                    i += 1;
+                }
+                if ok {
+                    out.push(v);
+                }
+            } else {
+                i += 1;
+            }
+        }
+    }
+    out.sort();
+    out.dedup();
+    out
+}
+
+/// cheap fingerprint of a run's maps: the complete wire table and one pad of every board
+fn run_fingerprint(run: u32) -> u64 {
+    let k = known();
+    let mut h = 0u64;
+    for &b in &k.a16 {
+        for ch in 0..32u8 {
+            h = hash_step(h, wire_code(run, b, ch));
+        }
+    }
+    for &b in &k.pwb {
+        h = hash_step(h, pad_code(run, b, 0, 1));
+    }
+    h
+}
+
+pub fn run(tier: &str, seed: u64, s: &mut Sink) {
+    let thorough = tier == "thorough";
+    let mut r = Rng::new(seed ^ 0xC08);
+    let al = alphabet();
+    let k = known();
+
+    // ---- names: every documented-looking name and its one-symbol perturbations
+    let n_doc = if thorough { 3000 } else { 600 };
+    for _ in 0..n_doc {
+        let base = documented_like(&mut r);
+        put(s, format!("nm {}", hex(&base)), "name:documented-like", true);
+        // one systematic perturbation
+        let mut v = base.clone();
+        match r.below(6) {
+            0 => {
+                let i = r.below(v.len() as u64) as usize;
+                let sym = r.pick(&al.iter().map(|x| x.as_slice()).collect::<Vec<_>>());
+                v.splice(i..i + 1, sym.iter().copied());
+            }
+            1 => {
+                let i = r.below(v.len() as u64) as usize;
+                v[i] = v[i].to_ascii_lowercase();
+            }
+            2 => {
+                v.pop();
+            }
+            3 => v.push(r.pick(b"0A1 +")),
+            4 => {
+                let i = r.below(v.len() as u64 + 1) as usize;
+                v.insert(i, r.pick(b"0A+- "));
+            }
+            _ => {
+                let i = r.below(v.len() as u64) as usize;
+                v[i] = v[i].wrapping_add(if r.chance(1, 2) { 1 } else { 255 }) & 0x7f;
+            }
+        }
+        if utf8_ok(&v) {
+            put(s, format!("nm {}", hex(&v)), "name:perturbed", true);
+        }
+    }
+    // every board x every digit character 0-9 A-Z a-z for B and C (the base-16 / base-32 boundary G, W)
+    for b in &k.a16 {
+        for letter in [b'B', b'C', b'A', b'b'] {
+            let mut p = vec![letter];
+            p.extend(b.name().as_bytes());
+            let comps: Vec<Vec<u8>> =
+                (b'0'..=b'9').chain(b'A'..=b'Z').chain(b'a'..=b'z').chain([b'+', b'-', b'/', b':', b'@', b'[', b'`', b'{']).map(|c| vec![c]).collect();
+            put_block(s, &p, &comps, "name:adc-all-digits");
+        }
+    }
+    // PC + every two-digit number and near misses
+    for a in (b'/'..=b':').chain([b'A', b'a', b' ', b'+']) {
+        let p = vec![b'P', b'C', a];
+        let comps: Vec<Vec<u8>> = (b'/'..=b':').chain([b'A', b'a', b' ', b'+']).map(|c| vec![c]).collect();
+        put_block(s, &p, &comps, "name:pwb-all-numbers");
+    }
+    put_block(s, b"PC", &["é".as_bytes().to_vec(), "ß".as_bytes().to_vec(), "\u{7ff}".as_bytes().to_vec()], "name:pwb-multibyte");
+    put_block(s, b"B", &["€".as_bytes().to_vec(), "\u{800}".as_bytes().to_vec()], "name:adc-multibyte");
+    put_block(s, b"C0", &["é".as_bytes().to_vec()], "name:adc-multibyte");
+    put_block(s, b"", &["\u{10000}".as_bytes().to_vec(), "😀".as_bytes().to_vec()], "name:4-byte-char");
+
+    // ---- all 4-byte names over the alphabet: exhaustive (thorough) / sampled blocks (quick)
+    {
+        let mut all: Vec<(Vec<u8>, Vec<Vec<u8>>)> = Vec::new();
+        blocks(&al, 4, &mut Vec::new(), &mut |p, c| all.push((p.to_vec(), c.to_vec())));
+        if thorough {
+            for (p, c) in &all {
+                put_block(s, p, c, "name:4-byte-exhaustive");
+            }
+        } else {
+            for _ in 0..400 {
+                let (p, c) = &all[r.below(all.len() as u64) as usize];
+                put_block(s, p, c, "name:4-byte-sampled-block");
+            }
+        }
+    }
+    // ---- other lengths 0..=8
+    let n_len = if thorough { 20000 } else { 2500 };
+    for i in 0..n_len {
+        let len = (i % 9) as usize;
+        let mut v = Vec::new();
+        if r.chance(1, 2) {
+            v = documented_like(&mut r);
+            v.truncate(len);
+        }
+        while v.len() < len {
+            let sym = &al[r.below(al.len() as u64) as usize];
+            if v.len() + sym.len() <= len {
+                v.extend_from_slice(sym);
+            } else {
+                v.push(r.pick(b"0A"));
+            }
+        }
+        if utf8_ok(&v) {
+            put(s, format!("nm {}", hex(&v)), &format!("name:length-{}", v.len()), v.len() == 4);
+        }
+    }
+    // ---- from_str_radix
+    for radix in [16u32, 32, 10, 36, 2] {
+        for c in 0..128u8 {
+            put(s, format!("radix {radix} {}", hex(&[c])), "radix:one-char", true);
+        }
+        let n = if thorough { 2000 } else { 150 };
+        for _ in 0..n {
+            let len = r.below(5) as usize;
+            let mut v = Vec::new();
+            for _ in 0..len {
+                v.push(r.pick(b"0129AFfGVvWZz+-7 "));
+            }
+            put(s, format!("radix {radix} {}", hex(&v)), "radix:short-string", !v.is_empty());
+        }
+    }
+
+    // ---- every documented name and its one-character neighbours at every position
+    for base in documented() {
+        put(s, format!("nm {}", hex(&base)), "name:documented", true);
+        for i in 0..base.len() {
+            let c = base[i];
+            let mut alts: Vec<u8> = vec![c.wrapping_sub(1), c.wrapping_add(1)];
+            if c.is_ascii_alphabetic() {
+                alts.push(c ^ 0x20); // case flipped
+            }
+            // (the digit position of B/C names is swept over every character by the adc-all-digits blocks)
+            for a in alts {
+                if a < 0x80 && a != c {
+                    let mut v = base.clone();
+                    v[i] = a;
+                    put(s, format!("nm {}", hex(&v)), "name:one-char-neighbour", true);
+                }
+            }
+        }
+    }
+
+    // ---- run numbers: every arm boundary (mined from the source text and found by scanning) +-2, a stride,
+    //      the simulation run and its neighbours, powers of two, random u32
+    let mut runs: Vec<u32> = Vec::new();
+    let around = |runs: &mut Vec<u32>, b: u64| {
+        for d in -2i64..=2 {
+            let x = b as i64 + d;
+            if x >= 0 && x <= u32::MAX as i64 {
+                runs.push(x as u32);
+            }
+        }
+    };
+    let mined = mined_literals();
+    for &l in &mined {
+        if thorough || l >= 100 {
+            around(&mut runs, l);
+        }
+    }
+    // scan 0..=20000 with a cheap fingerprint (complete wire table + one pad per board): a change is an arm boundary
+    let mut last = run_fingerprint(0);
+    for run in 1..=20000u32 {
+        let f = run_fingerprint(run);
+        if f != last {
+            around(&mut runs, run as u64);
+            last = f;
+        }
+    }
+    if thorough {
+        runs.extend(0..=20000u32);
+    } else {
+        for b in [0u64, 2724, 2941, 4418, 5000, 10418, 20000] {
+            around(&mut runs, b);
+        }
+        runs.extend((0..=20000u32).step_by(997));
+    }
+    runs.extend([u32::MAX, u32::MAX - 1, u32::MAX - 2, 1 << 31, (1 << 31) - 1, 65535, 65536]);
+    for _ in 0..(if thorough { 300 } else { 20 }) {
+        runs.push(r.next() as u32);
+    }
+    runs.sort();
+    runs.dedup();
+    let mut classes: Vec<(String, u32)> = Vec::new(); // first run of each distinct complete table
+    for &run in &runs {
+        let case = format!("run {run}");
+        let o = observe_line(&case).unwrap();
+        if !classes.iter().any(|(c, _)| *c == o) {
+            classes.push((o.clone(), run));
+        }
+        s.put(&case, &o, "run:tables", o.starts_with("ok"));
+    }
+    // for one run of every distinct table: every board x every channel (wires), every board x chip x 4 channels (pads),
+    // installed or not
+    for (o, run) in &classes {
+        if !o.starts_with("ok") {
+            continue;
+        }
+        for b in &k.a16 {
+            for ch in 0..32 {
+                put(s, format!("wpos {run} {} {ch}", hex(b.name().as_bytes())), "map:wire-all-rows", true);
+            }
+        }
+        for b in &k.pwb {
+            for a in 0..4 {
+                for ch in [1, 36, 37, 72] {
+                    put(s, format!("ppos {run} {} {a} {ch}", hex(b.name().as_bytes())), "map:pad-all-boards", true);
+                }
+            }
+        }
+        let b = k.pwb[r.below(k.pwb.len() as u64) as usize];
+        for a in 0..4 {
+            for ch in 1..=72 {
+                put(s, format!("ppos {run} {} {a} {ch}", hex(b.name().as_bytes())), "map:pad-all-channels", true);
+            }
+        }
+    }
+    // individual lookups
+    let n_pos = if thorough { 20000 } else { 1500 };
+    let cands = candidate_names();
+    for _ in 0..n_pos {
+        let run = match r.below(4) {
+            0 => r.pick(&runs),
+            1 => r.pick(&[2723u32, 2724, 2940, 2941, 4417, 4418, 10417, 10418, u32::MAX]),
+            2 => r.below(20001) as u32,
+            _ => r.next() as u32,
+        };
+        if r.chance(1, 2) {
+            let name = if r.chance(4, 5) { r.pick(&k.a16).name().to_string() } else { cands[r.below(cands.len() as u64) as usize].clone() };
+            let ch = if r.chance(9, 10) { r.below(32) } else { r.pick(&[32u64, 33, 255]) };
+            put(s, format!("wpos {run} {} {ch}", hex(name.as_bytes())), "map:wire-lookup", run >= 2941);
+        } else {
+            let name = if r.chance(4, 5) { r.pick(&k.pwb).name().to_string() } else { cands[r.below(cands.len() as u64) as usize].clone() };
+            let a = if r.chance(9, 10) { r.below(4) } else { r.pick(&[4u64, 255]) };
+            let ch = if r.chance(9, 10) { r.range(1, 72) } else { r.pick(&[0u64, 73, 79, 65535]) };
+            put(s, format!("ppos {run} {} {a} {ch}", hex(name.as_bytes())), "map:pad-lookup", run >= 4418);
+        }
+    }
+    // ---- geometry: all wires, all columns (+ out of range)
+    for w in 0..(TPC_ANODE_WIRES + 2) {
+        put(s, format!("wcol {w}"), "geometry:wire-column", w < TPC_ANODE_WIRES);
+    }
+    for c in 0..TPC_PAD_COLUMNS {
+        put(s, format!("colw {c}"), "geometry:column-wires", c < TPC_PAD_COLUMNS);
+    }
 }
